@@ -81,6 +81,8 @@ class SeededUrandom:
 
 
 class Sim:
+    HANDLES_RETRY = True             # cfg "retry" is played by Sim._retry_app (a subclass with its own Retry logic says False)
+
     def __init__(self, A, cfg=None, seed=0):
         self.A = A
         self.cfg = dict(DEFAULT_CFG)
@@ -103,6 +105,12 @@ class Sim:
         self.terminated = {"c": False, "s": False}
         self.raised = []
         self.emitted = {}                # dgid -> parsed packets
+        self.remembered = None           # resumed runs: the limits the client remembers from the priming connection
+        self.retry = {"sent": 0, "odcid": None, "scid": None, "accepted": 0}
+        if self.cfg.get("resume"):
+            self._prime()
+        if self.cfg.get("retry") and self.HANDLES_RETRY:
+            self.obs.follow_retry = True
         self._urandom = os.urandom
         os.urandom = SeededUrandom(seed)
         try:
@@ -110,7 +118,12 @@ class Sim:
         except Exception:
             os.urandom = self._urandom
             raise
-        self.ev("cfg", cfg={k: v for k, v in self.cfg.items()})
+        if self.cfg.get("resume"):
+            # (the ticket and the store are objects; the log carries what the client remembers instead)
+            self.ev("cfg", cfg=dict({k: v for k, v in self.cfg.items() if k not in ("session_ticket", "ticket_store")},
+                                    remembered=self.remembered))
+        else:
+            self.ev("cfg", cfg={k: v for k, v in self.cfg.items()})
 
     def close(self):
         os.urandom = self._urandom
@@ -169,7 +182,35 @@ class Sim:
         self._stream_count_limit(self.eps["c"])
         self._keycap("c")
 
-    def _make_server(self, odcid):
+    def _prime(self):
+        """cfg "resume": "accept" | "reject".  A priming connection (a fresh Sim with the same options, overridden by
+        cfg "prime"; no Retry) runs to quiescence and the client keeps the last session ticket it was given; this
+        run's client offers it (and may send 0-RTT data).  "accept": the server's store knows the ticket; "reject":
+        it does not, so the server falls back to a full handshake and cannot open 0-RTT packets."""
+        mode = self.cfg["resume"]
+        if mode not in ("accept", "reject"):
+            raise MachineryError("bad resume mode %r" % (mode,))
+        pc = {k: v for k, v in self.cfg.items() if k not in ("resume", "retry", "prime", "session_ticket", "ticket_store")}
+        pc.update(self.cfg.get("prime") or {})
+        store = {}
+        pc["ticket_store"] = store
+        p = Sim(self.A, pc, seed=(self.seed ^ 0x5EED) & 0x3FFFFFFF)
+        try:
+            p.handshake()
+            p.run_fair()
+            tickets = list(p.tickets)
+        finally:
+            p.close()
+        if not tickets or not store:
+            raise MachineryError("the priming connection produced no session ticket")
+        self.cfg["session_ticket"] = tickets[-1]
+        self.cfg["ticket_store"] = store if mode == "accept" else {}
+        pick = lambda k: pc["s_" + k] if pc.get("s_" + k) is not None else pc[k]     # noqa
+        # what the priming *server* was configured with = what its transport parameters told the client
+        self.remembered = {"max_stream_data": pick("max_stream_data"), "max_data": pick("max_data"),
+                           "max_streams": pc.get("max_streams") or 128}
+
+    def _make_server(self, odcid, retry_scid=None):
         c = self._base_config(False)
         cert = "ssl_cert_with_chain.pem" if self.cfg["chain"] else "ssl_cert.pem"
         if self.cfg.get("smallcert"):
@@ -181,6 +222,8 @@ class Sim:
         if self.cfg.get("ticket_store") is not None:
             store = self.cfg["ticket_store"]
             kw = {"session_ticket_fetcher": store.get, "session_ticket_handler": lambda t: store.__setitem__(t.ticket, t)}
+        if retry_scid is not None:
+            kw["retry_source_connection_id"] = retry_scid
         self.eps["s"] = self.A["connection"].QuicConnection(
             configuration=c, original_destination_connection_id=odcid, **kw)
         self._stream_count_limit(self.eps["s"])
@@ -446,6 +489,8 @@ class Sim:
             addr = from_addr or self.caddr      # a rebound client: everything still in flight arrives from the new address
         else:
             addr = SADDR
+        if dst == "s" and self.HANDLES_RETRY and self.cfg.get("retry") and self._retry_app(d, raw, addr):
+            return
         if dst == "s" and "s" not in self.eps:
             pk = d["pkts"][0] if d["pkts"] else None
             if not pk or pk["type"] != "initial":
@@ -476,6 +521,10 @@ class Sim:
                         if rg is None and pg is not None:
                             rg = pg + 1            # the observer has not seen the sender use that generation yet
                         can = rg is not None and (p["gen"] in (rg, rg + 1) or (pg is not None and p["gen"] == pg))
+                    if can and p["type"] == "0rtt" and self.obs.follow_retry:
+                        # Retry runs: a 0-RTT packet from before the Retry is protected with the early secret of the first
+                        # ClientHello; the server derived its key from the second one
+                        can = cr.recv.secret == p.get("zsecret")
                     if dst == "c" or p["type"] == "handshake":      # receive_datagram drops these when the CID is not (any longer) one of its own
                         can = can and any(bytes(p["dcid"]) == h.cid for h in conn._host_cids)
                     a = self.ev("arr", ep=dst, dg=d["id"], idx=j, space=p["space"], type=p["type"], pn=p["pn"],
@@ -492,6 +541,63 @@ class Sim:
         self.ev("rx", ep=dst, dg=d["id"], len=len(raw), addr=self.addr_id(addr), raised=r or "",
                 forged=data is not None)
         self._after(dst)
+
+    # -- the server application of a Retry run (cfg "retry": True) -------------------------------------
+    @staticmethod
+    def _retry_scid(odcid):
+        return hashlib.sha1(b"zrtt-retry-scid" + bytes(odcid)).digest()[:8]
+
+    def _retry_token(self, addr, odcid):
+        return b"zrtt" + bytes([self.addr_id(addr)]) + bytes(odcid)
+
+    def _retry_app(self, d, raw, addr):
+        """What aioquic/asyncio/server.py does with a datagram that belongs to no connection, when `retry` is on:
+        an Initial (datagram of at least 1200 bytes) without a token is answered by a Retry packet carrying a token
+        bound to the source address and the original destination CID; an Initial with a valid token creates the
+        connection (original_destination_connection_id and retry_source_connection_id from the token); an invalid
+        token is dropped.  Returns True when the datagram was consumed here.  The Retry packet comes from the
+        observer's independent encoder."""
+        h = obs.long_header(raw)
+        have = "s" in self.eps
+        if have:
+            # routing by destination CID: the Retry's source CID and the connection's own CIDs lead to the connection
+            if h is None or h["type"] != "initial":
+                return False
+            dc = bytes(h["dcid"])
+            if dc == self.retry["scid"] or any(dc == c.cid for c in self.eps["s"]._host_cids):
+                return False
+        if h is None or h["type"] != "initial" or len(raw) < 1200 or h["ver"] not in (obs.V1, obs.V2):
+            self.ev("net", fate="noserver", dg=d["id"], src=d["src"])
+            return True
+        if not h["token"]:
+            self.ev("app", ep="s", what="rx", dg=d["id"], addr=self.addr_id(addr), len=len(raw))
+            odcid = bytes(h["dcid"])
+            scid = self._retry_scid(odcid)
+            pkt = obs.retry_packet(h["ver"], bytes(h["scid"]), scid, odcid, self._retry_token(addr, odcid))
+            self.retry["sent"] += 1
+            self.dgid += 1
+            pkts = self.obs.parse_datagram("s", pkt)
+            self.emitted[self.dgid] = pkts
+            self.ev("net", fate="app-retry", dg=d["id"], src=d["src"], addr=self.addr_id(addr))
+            self.ev("app", ep="s", what="retry", dg=self.dgid, to=self.addr_id(addr), len=len(pkt))
+            self.ev("pkt", ep="s", dg=self.dgid, idx=0, dglen=len(pkt), to=self.addr_id(addr), **self._pkt_fields(pkts[0]))
+            if addr == self.caddr:            # a Retry sent to a spoofed source address reaches nobody
+                self.net.append({"id": self.dgid, "src": "s", "dst": "c", "data": pkt, "to": addr,
+                                 "from_addr": SADDR, "pkts": pkts})
+            return True
+        tok = bytes(h["token"])
+        odcid = tok[5:]
+        if have or tok != self._retry_token(addr, odcid) or bytes(h["dcid"]) != self._retry_scid(odcid):
+            # (a valid token on an unknown destination CID would start a second connection: not modelled, dropped)
+            self.ev("app", ep="s", what="rx", dg=d["id"], addr=self.addr_id(addr), len=len(raw))
+            self.ev("net", fate="app-bad-token", dg=d["id"], src=d["src"], addr=self.addr_id(addr))
+            return True
+        # (the datagram goes on to the connection: its "rx" line counts its bytes)
+        self.retry.update(odcid=odcid, scid=self._retry_scid(odcid))
+        self.retry["accepted"] += 1
+        self.ev("app", ep="s", what="token-ok", dg=d["id"], addr=self.addr_id(addr), len=len(raw))
+        self._make_server(odcid, retry_scid=self.retry["scid"])
+        return False
 
     def inject(self, dst, raw, addr, tag):
         """A datagram that no endpoint emitted (hostile / spoofed)."""
